@@ -477,6 +477,19 @@ fn collect_despawns(
     )>,
     despawn_buffer: &mut DespawnBuffer,
 ) -> Result<()> {
+    // Entities that were hidden since the last tick go first: forgetting a despawned entity
+    // below also drops its pending visibility change, and the client would keep it forever.
+    for (client_entity, mut message, .., mut ticks, visibility) in &mut *clients {
+        if let Some(mut visibility) = visibility {
+            for entity in visibility.drain_lost() {
+                trace!("writing visibility lost for `{entity}` for client `{client_entity}`");
+                let entity_range = serialized.write_entity(entity)?;
+                message.add_despawn(entity_range);
+                ticks.remove_entity(entity);
+            }
+        }
+    }
+
     for entity in despawn_buffer.drain(..) {
         let entity_range = serialized.write_entity(entity)?;
         for (client_entity, mut message, .., mut ticks, visibility) in &mut *clients {
@@ -491,17 +504,6 @@ fn collect_despawns(
                 message.add_despawn(entity_range.clone());
             }
             ticks.remove_entity(entity);
-        }
-    }
-
-    for (client_entity, mut message, .., mut ticks, visibility) in clients {
-        if let Some(mut visibility) = visibility {
-            for entity in visibility.drain_lost() {
-                trace!("writing visibility lost for `{entity}` for client `{client_entity}`");
-                let entity_range = serialized.write_entity(entity)?;
-                message.add_despawn(entity_range);
-                ticks.remove_entity(entity);
-            }
         }
     }
 
